@@ -59,6 +59,8 @@ structure MState where
   ev : Nat := 0
   viol : Array Violation := #[]
   uuidsEver : List Nat := []
+  poseSent : List ((Nat × Nat) × List Nat) := []          -- (connection, entity) ↦ origin timestamps of the pose updates received from it
+  poseSeen : List ((Nat × Nat × Nat) × Nat) := []         -- (observer, sender, entity) ↦ how far into that list the observer has been relayed
 deriving Inhabited
 
 def flat (s : String) : String := s.replace "\n" " "
@@ -493,6 +495,27 @@ def MState.step (m : MState) (st : IStep) : MState :=
             | none => m
           | _ => m) m
       | none => m
+    | _ => m
+  -- C11 order: what an observer is relayed of an entity's pose updates follows the order in which the sender's
+  -- connection received them - later ones may overtake nothing, none comes twice
+  let m := match st.ev with
+    | .recv c (.updatePose ots eid _) =>
+      let key := (c, eid)
+      let old := ((m.poseSent.find? fun (q : (Nat × Nat) × List Nat) => q.1 == key).map Prod.snd).getD []
+      { m with poseSent := (m.poseSent.filter fun (q : (Nat × Nat) × List Nat) => q.1 != key) ++ [(key, old ++ [ots])] }
+    | .handle c (some (.updatePose _ eid _)) _ =>
+      st.ds.foldl (fun (m : MState) (d : Delivery) =>
+        match d.2 with
+        | .poseBcast ots e _ =>
+          if e != eid then m else
+          let sent := ((m.poseSent.find? fun (q : (Nat × Nat) × List Nat) => q.1 == (c, eid)).map Prod.snd).getD []
+          let key := (d.1, c, eid)
+          let from_ := ((m.poseSeen.find? fun (q : (Nat × Nat × Nat) × Nat) => q.1 == key).map Prod.snd).getD 0
+          match (sent.drop from_).findIdx? (· == ots) with
+          | some i => { m with poseSeen := (m.poseSeen.filter fun (q : (Nat × Nat × Nat) × Nat) => q.1 != key) ++ [(key, from_ + i + 1)] }
+          | none => m.bad "C11" "pose-reordered-or-repeated"
+              s!"connection {d.1} is relayed update {ots} of entity {eid} from connection {c}, which is not among the updates received after the last one relayed: {sent.drop from_}"
+        | _ => m) m
     | _ => m
   { m with ev := m.ev + 1 }
 
